@@ -82,6 +82,11 @@ var c15Ops = []c15Op{
 		return map[string]interface{}{"to": "captain", "update": map[string]interface{}{"m3": map[string]interface{}{"spec": map[string]interface{}{"inline": map[string]interface{}{"nodes": map[string]interface{}{"start": map[string]interface{}{"action": map[string]interface{}{"interpreter": "cobol", "source": "x"}}}}}}}}
 	}},
 	{"create-m1-X-with-state", upd("m1", "X", map[string]interface{}{"node": "start", "bs": map[string]interface{}{"count": 7.0}})},
+	// crash and restart at this message boundary: the crew is replaced by one rebuilt from the shadow store
+	{"restart", nil},
+	{"restart-drain", nil},
+	{"delete-m2", func() interface{} { return map[string]interface{}{"to": "captain", "delete": []interface{}{"m2"}} }},
+	{"boss-delete-m2", func() interface{} { return map[string]interface{}{"to": "boss", "boss": "delete-m2"} }},
 }
 
 type c15Case struct {
@@ -125,6 +130,21 @@ func (s shadow) fold(r *Result) {
 			n.SpecSource = m.SpecSrc.Copy()
 		}
 	}
+}
+
+func (s shadow) copy() shadow {
+	t := shadow{}
+	for mid, m := range s {
+		n := &crew.Machine{}
+		if m.State != nil {
+			n.State = m.State.Copy()
+		}
+		if m.SpecSource != nil {
+			n.SpecSource = m.SpecSource.Copy()
+		}
+		t[mid] = n
+	}
+	return t
 }
 
 func specName(ss *crew.SpecSource) string {
@@ -193,6 +213,14 @@ func c15Build(hist []string) (*Crew, shadow, *Result, string) {
 	var last *Result
 	for _, name := range hist {
 		var r *Result
+		if name == "restart" || name == "restart-drain" {
+			c2, bad := reboot(s, name == "restart-drain")
+			if bad != "" {
+				return c, s, nil, "restart: " + bad
+			}
+			c = c2
+			continue
+		}
 		if p, pm, where := vh.Trap(func() { r, err = c.ProcessMsg(context.Background(), opByName(name).Msg()) }); p {
 			return c, s, nil, "panic: " + pm + " @" + where
 		}
@@ -206,7 +234,8 @@ func c15Build(hist []string) (*Crew, shadow, *Result, string) {
 }
 
 // reboot builds a crew from the store the way siostd does.
-func reboot(s shadow) (*Crew, string) {
+// Without drain this is exactly siostd's path: the change cache filled by SetMachine is reported with the first message.
+func reboot(s shadow, drain bool) (*Crew, string) {
 	c, err := newTestCrew()
 	if err != nil {
 		return nil, err.Error()
@@ -228,7 +257,14 @@ func reboot(s shadow) (*Crew, string) {
 			return nil, "SetMachine from store failed: " + err.Error()
 		}
 	}
-	c.GetChanged(context.Background()) // a host starts with a clean change cache after boot
+	if drain {
+		// a host that asks for the changes right after booting and applies them like any others
+		ch, err := c.GetChanged(context.Background())
+		if err != nil {
+			return nil, "GetChanged after boot failed: " + err.Error()
+		}
+		s.fold(&Result{Changed: ch})
+	}
 	return c, ""
 }
 
@@ -245,7 +281,8 @@ func stateKeyFull(c *Crew, s shadow) string {
 	return liveKey(c) + "#" + shadowKey(s) + "#" + cap + "#" + strings.Join(prev, ",")
 }
 
-var c15Conts = [][]string{{"inc-all"}, {"inc-m1"}, {"create-m2-Y"}, {"delete-m1"}, {"inc-all", "inc-all"}, {"create-m1-X", "inc-m1"}, {"state-m1", "inc-m1"}, {"delete-m1", "create-m1-X"}}
+var c15Conts = [][]string{{"inc-all"}, {"inc-m1"}, {"create-m2-Y"}, {"delete-m1"}, {"delete-m2"}, {"boss-delete-m2"}, {"boss-recreate-m1"}, {"spec-m1-Y"},
+	{"inc-all", "inc-all"}, {"create-m1-X", "inc-m1"}, {"state-m1", "inc-m1"}, {"delete-m1", "create-m1-X"}, {"delete-m1", "inc-all"}, {"create-m1-X-with-state", "inc-all"}}
 
 // c15Check evaluates invariant and differential for one history; returns violations.
 func c15Check(hist []string) ([][2]string, string) {
@@ -261,11 +298,12 @@ func c15Check(hist []string) ([][2]string, string) {
 	key := stateKeyFull(c, s)
 	// differential: a crew rebuilt from the store behaves like the original
 	for _, cont := range c15Conts {
-		a, _, _, bad := c15Build(hist)
+		a, sa, _, bad := c15Build(hist)
 		if bad != "" {
 			break
 		}
-		b, bad2 := reboot(s)
+		sb := s.copy()
+		b, bad2 := reboot(sb, false)
 		if bad2 != "" {
 			out = append(out, [2]string{"reboot-failed/after-" + last, bad2})
 			break
@@ -273,6 +311,9 @@ func c15Check(hist []string) ([][2]string, string) {
 		for i, name := range cont {
 			var ra, rb *Result
 			var ea, eb error
+			if name == "restart" || name == "restart-drain" {
+				continue
+			}
 			pa, _, _ := vh.Trap(func() { ra, ea = a.ProcessMsg(context.Background(), opByName(name).Msg()) })
 			pb, _, _ := vh.Trap(func() { rb, eb = b.ProcessMsg(context.Background(), opByName(name).Msg()) })
 			if pa || pb || ea != nil || eb != nil {
@@ -282,6 +323,19 @@ func c15Check(hist []string) ([][2]string, string) {
 			if ka, kb := emittedKey(ra)+"@"+liveKey(a), emittedKey(rb)+"@"+liveKey(b); ka != kb {
 				out = append(out, [2]string{"rebuilt-crew-behaves-differently/after-" + last + "/on-" + name,
 					fmt.Sprintf("history %v, then %v: the original crew gives %s; a crew rebuilt from the reported changes gives %s", hist, cont[:i+1], ka, kb)})
+				break
+			}
+			// the rebuilt crew is a crew like any other: its reported changes must suffice too
+			sa.fold(ra)
+			sb.fold(rb)
+			if lk, sk := liveKey(b), shadowKey(sb); lk != sk {
+				out = append(out, [2]string{"store-differs-from-rebuilt-crew/after-" + last + "/on-" + name,
+					fmt.Sprintf("history %v, crew rebuilt from the store, then %v: the rebuilt crew is [%s] but the store that went on folding its reported changes holds [%s]", hist, cont[:i+1], lk, sk)})
+				break
+			}
+			if ka, kb := shadowKey(sa), shadowKey(sb); ka != kb {
+				out = append(out, [2]string{"stores-diverge-after-restart/after-" + last + "/on-" + name,
+					fmt.Sprintf("history %v, then %v: the original crew's store holds [%s], the store of the crew rebuilt from it holds [%s]", hist, cont[:i+1], ka, kb)})
 				break
 			}
 		}
@@ -307,7 +361,7 @@ func C15(c *vh.Ctx) {
 	}
 	depth := c.Pick(4, 5)
 	c.Bound("history_max", depth)
-	c.Rule(fmt.Sprintf("breadth-first search over histories of crew operations on a real sio.Crew (fresh crew + replay per successor; states deduplicated by live machines, captain state, shadow store and change cache): alphabet of %d operations (create m1/m2/boss with specs X/Y/Z, replace m1's state, replace m1's spec, delete m1, messages to all / to m1, a machine that deletes and re-creates m1 within one ProcessMsg, a captain operation that fails), depth up to the bound. Invariant in every state: a store that folded every Result.Changed (as sio.Stdio does) equals the live crew (node, bindings, spec; deleted machines absent; a stored machine without state is start/{}). Differential in every state: a crew rebuilt from that store through SetMachine (the siostd boot path) and the original give equal emissions and equal next states on %d continuations of length <= 2.", len(c15Ops), len(c15Conts)))
+	c.Rule(fmt.Sprintf("breadth-first search over histories of crew operations on a real sio.Crew (fresh crew + replay per successor; states deduplicated by live machines, captain state, shadow store and change cache): alphabet of %d operations (create m1/m2/boss with specs X/Y/Z, replace m1's state, replace m1's spec, delete m1, messages to all / to m1, a machine that deletes and re-creates m1 within one ProcessMsg, deletion of m2 by the host and by a machine, a captain operation that fails, and *restart*: the crew is replaced by one rebuilt from the shadow store, so every message boundary is a crash-and-restart point and the search goes on from the restarted crew), depth up to the bound. Invariant in every state: a store that folded every Result.Changed (as sio.Stdio does) equals the live crew (node, bindings, spec; deleted machines absent; a stored machine without state is start/{}). Differential in every state: a crew rebuilt from that store through SetMachine (the siostd boot path) and the original give equal emissions, equal next states and equal stores (each crew's reported changes folded into its own copy of the store, which must also equal that crew) on %d continuations of length <= 2.", len(c15Ops), len(c15Conts)))
 	seen := map[string]bool{}
 	reported := map[string]bool{}
 	frontier := [][]string{{}}
